@@ -23,6 +23,7 @@ import (
 	"github.com/alibaba/sentinel-golang/core/base"
 	"github.com/alibaba/sentinel-golang/logging"
 	"github.com/alibaba/sentinel-golang/util"
+	"github.com/alibaba/sentinel-golang/util/vhook"
 	"github.com/pkg/errors"
 )
 
@@ -191,6 +192,7 @@ func (la *LeapArray) currentBucketOfTime(now uint64, bg BucketGenerator) (*Bucke
 	bucketStart := calculateStartTime(now, la.bucketLengthInMs)
 
 	for { //spin to get the current BucketWrap
+		vhook.Yield("la.load")
 		old := la.array.get(idx)
 		if old == nil {
 			// because la.array.data had initiated when new la.array
@@ -210,8 +212,10 @@ func (la *LeapArray) currentBucketOfTime(now uint64, bg BucketGenerator) (*Bucke
 		} else if bucketStart > atomic.LoadUint64(&old.BucketStart) {
 			// current time has been next cycle of LeapArray and LeapArray dont't count in last cycle.
 			// reset BucketWrap
+			vhook.Yield("la.trylock")
 			if la.updateLock.TryLock() {
 				old = bg.ResetBucketTo(old, bucketStart)
+				vhook.Yield("la.unlock")
 				la.updateLock.Unlock()
 				return old, nil
 			} else {
@@ -245,6 +249,7 @@ func (la *LeapArray) valuesWithTime(now uint64) []*BucketWrap {
 	}
 	ret := make([]*BucketWrap, 0, la.array.length)
 	for i := 0; i < la.array.length; i++ {
+		vhook.Yield("la.scan")
 		ww := la.array.get(i)
 		if ww == nil || la.isBucketDeprecated(now, ww) {
 			continue
@@ -262,6 +267,7 @@ func (la *LeapArray) ValuesConditional(now uint64, predicate base.TimePredicate)
 	}
 	ret := make([]*BucketWrap, 0, la.array.length)
 	for i := 0; i < la.array.length; i++ {
+		vhook.Yield("la.scan")
 		ww := la.array.get(i)
 		if ww == nil || la.isBucketDeprecated(now, ww) || !predicate(atomic.LoadUint64(&ww.BucketStart)) {
 			continue
